@@ -940,7 +940,19 @@ func ruleExonOverlap(c *Ctx, rule string) {
 	fn := c.fn("feat/gene", "Exons.Add")
 	c.Funcs[funcName(fn)] = true
 	n := 0
-	for _, b := range fn.Blocks {
+	// Add itself and the private checking helpers whose error Add returns (checkAdjacent(newSlice))
+	var blocks []*ssa.BasicBlock
+	for _, g := range privateReach(fn) {
+		if g == fn {
+			blocks = append(blocks, g.Blocks...)
+			continue
+		}
+		res := g.Signature.Results()
+		if g.Pkg == fn.Pkg && res.Len() == 1 && isErrorType(res.At(0).Type()) {
+			blocks = append(blocks, g.Blocks...)
+		}
+	}
+	for _, b := range blocks {
 		ifi, ok := b.Instrs[len(b.Instrs)-1].(*ssa.If)
 		if !ok {
 			continue
